@@ -129,10 +129,26 @@ impl Property for C15 {
             lc.n_range = *rng.pick(&[12, 30, 1000]);
             lc.null_pct = *rng.pick(&[0, 10]);
         }
+        // huge regime: one group with thousands of values (beyond any internal batch / threshold constant)
+        let huge = rng.chance(if thorough { 30 } else { 4 }, 1000);
+        if huge {
+            lc.keys = 1;
+            lc.n_range = 1_000_000;
+            lc.null_pct = 0;
+        }
         // magnitude regime: INT values near 1e9 (squares sum beyond 2^53 but within i64) mixed with small ones
         let big_n = rng.chance(1, 8);
         let split_law = rng.chance(1, 3);
-        let query = if split_law {
+        let query = if huge {
+            let mut q = sqlgen::Query::default();
+            q.aggregate = true;
+            q.projections = vec![format!("PERCENTILE(n, 0.{}) AS p", rng.range(1, 9)), "COUNT(*) AS c".to_owned(), "COUNT(DISTINCT n) AS dn".to_owned(), "MIN(n) AS lo".to_owned(), "AVG(n) AS a".to_owned()];
+            if rng.chance(1, 2) {
+                q.group_by = vec!["k".to_owned()];
+                q.projections.push("k".to_owned());
+            }
+            q
+        } else if split_law {
             let mut q = sqlgen::Query::default();
             q.aggregate = true;
             q.group_by = match rng.below(3) {
@@ -151,7 +167,7 @@ impl Property for C15 {
             sqlgen::gen_aggregate(rng, &cfg, &AggCfg { order_insensitive: true, allow_join: true, max_aggs: 5 })
         };
         let joined: Vec<Vec<u8>> = if query.join.is_some() { (0..rng.range(1, 8)).map(|_| sqlgen::gen_joined_line(rng, lc.keys.min(3), 10).into_bytes()).collect() } else { Vec::new() };
-        let n_lines = if large { rng.range(18, if thorough { 60 } else { 40 }) as usize } else { rng.range(1, 10) as usize };
+        let n_lines = if huge { rng.range(4100, if thorough { 12000 } else { 5400 }) as usize } else if large { rng.range(18, if thorough { 60 } else { 40 }) as usize } else { rng.range(1, 10) as usize };
         let mut specs: Vec<sqlgen::LineSpec> = (0..n_lines).map(|_| sqlgen::gen_line_spec(rng, &cfg, &lc)).collect();
         if big_n {
             for s in specs.iter_mut().take(9) {
@@ -188,7 +204,13 @@ impl Property for C15 {
         }
         let n = specs.len();
         let mut orders: Vec<Vec<usize>> = Vec::new();
-        if n <= 4 {
+        if huge {
+            let ident: Vec<usize> = (0..n).collect();
+            orders.push(ident.iter().rev().cloned().collect());
+            let mut o = ident.clone();
+            rng.shuffle(&mut o);
+            orders.push(o);
+        } else if n <= 4 {
             // all permutations
             let mut perm: Vec<usize> = (0..n).collect();
             permutations(&mut perm, 0, &mut orders);
@@ -228,7 +250,7 @@ impl Property for C15 {
             "stmt": query.text(),
             "joined": if query.join.is_some() { J::String(enc(&gen::join_lines(&joined, true))) } else { J::Null },
             "group_keys": query.group_by,
-            "split_law": split_law,
+            "split_law": split_law && !huge,
             "specs": specs.iter().map(spec_to_json).collect::<Vec<_>>(),
             "orders": orders,
             "cut": rng.below(n + 1),
@@ -422,6 +444,8 @@ impl Property for C15 {
         out.probe("timestamp_argument", upper.contains("(D)") as u64);
         out.probe("join_statement", joined.is_some() as u64);
         out.probe("large_more_than_16_lines", (n > 16) as u64);
+        out.probe("huge_more_than_4096_values_in_a_group", (n > 4096) as u64);
+        out.probe("pattern_from_column", stmt.contains("regexp_matches(") as u64);
         out.probe("int_magnitude_above_1e8", specs.iter().any(|s| s.n.as_ref().map(|n| n.trim_start_matches('-').len() >= 9).unwrap_or(false)) as u64);
         out.probe("text_minmax", (upper.contains("MIN(K)") || upper.contains("MAX(K)")) as u64);
         out
